@@ -214,6 +214,9 @@ def purge(ctx: Any) -> List[Ob]:
         for a in sorted(stores):
             w = cfg.must_pass_before_exit(node, lambda n, a=a: n in purge_nodes[a])
             obs.append(ob(R, f, s.node, f'after the registry removal every path drops the answers still queued in `{a}`', w is None, f'answers queued in `{a}` survive the withdrawal and are multicast with their normal TTL after the last goodbye' if w is not None else ''))
+    from .c12 import purge_covers_all
+
+    obs.extend(purge_covers_all(ctx, R))
     # the records to purge are walked once per queue (and per pending group): whatever a withdrawal hands to the purge helpers
     # must be re-iterable, else the second queue is purged with an exhausted iterator
     from .common import iteration_weight, one_shot_sources, param_may_be_iterator
